@@ -34,7 +34,9 @@ import (
 //
 // Direct oracle (implementation only):
 //   (a) Increase adds to Rewards[program of the block's first output] exactly
-//       sum(TxData.Fee()) + subsidy (uint64), touches no other entry,
+//       sum of the transactions' fees + subsidy (uint64) — fees computed by the harness as inputs
+//       minus ALL outputs incl. retirement / contract-registration outputs (and TxData.Fee()
+//       must agree with that) —, touches no other entry,
 //       BlockReward/2 <= subsidy <= BlockReward, and subsidy == the value recomputed
 //       independently from the vote table after the block (total votes, supply, same formula);
 //   (b) a coinbase accepted by checkCoinbaseAmount pays nothing unless height%epoch == 1, and
@@ -208,7 +210,7 @@ func c14line(c *Ctx, st *c14state, line string) {
 		if hasCb {
 			txs = txs[1:]
 		}
-		blk, suffix := ecBlock(st.c.Hash, height, ts, outs0, hasCb, txs)
+		blk, suffix, feeMismatch := ecBlock(st.c.Hash, height, ts, outs0, hasCb, txs)
 		before := map[string]uint64{}
 		for k, v := range st.c.Rewards {
 			before[k] = v
@@ -235,15 +237,20 @@ func c14line(c *Ctx, st *c14state, line string) {
 			}
 			// oracle (a)
 			script := hex.EncodeToString(blk.Transactions[0].Outputs[0].ControlProgram)
+			// fees computed by the harness itself: inputs minus ALL outputs (votes, ordinary outputs
+			// and retirements / contract registrations); the coinbase transaction has none
 			want := before[script]
 			fees := new(big.Int)
-			for _, tx := range blk.Transactions {
-				want += tx.Fee()
-				fees.Add(fees, new(big.Int).SetUint64(tx.Fee()))
+			for _, t := range txs {
+				want += t.ecFee()
+				fees.Add(fees, new(big.Int).SetUint64(t.ecFee()))
+			}
+			if feeMismatch != "" {
+				fails = append(fails, [2]string{"TxData.Fee() differs from inputs minus all outputs", feeMismatch})
 			}
 			want += sub
 			if st.c.Rewards[script] != want {
-				fails = append(fails, [2]string{"Increase: reward entry != previous + fees + subsidy", fmt.Sprintf("%s: got %d want %d", script, st.c.Rewards[script], want)})
+				fails = append(fails, [2]string{"Increase: reward entry != previous + fees + subsidy", fmt.Sprintf("%s: got %d want %d (fees = inputs - all outputs incl. retirements = %s, subsidy %d)", script, st.c.Rewards[script], want, fees, sub)})
 			}
 			for k, v := range st.c.Rewards {
 				if k != script && before[k] != v {
@@ -483,6 +490,12 @@ func c14case(c *Ctx) []string {
 					fee = 0
 				}
 				fmt.Fprintf(&sb, " T %s %s %d", ecPairs(ve), ecPairs(vo), fee)
+				if c.Rng.Intn(3) == 0 {
+					// BTM burnt by a retirement output: bare OP_FAIL, RetireProgram, or a BCRP
+					// contract registration (all unspendable => Retirement entries); not a fee
+					burn := []uint64{1, 30000000, 100000000, uint64(1 + c.Rng.Intn(500000000))}[c.Rng.Intn(4)]
+					fmt.Fprintf(&sb, " B%d:%d", burn, c.Rng.Intn(3))
+				}
 			}
 			ls = append(ls, sb.String())
 		}
